@@ -258,13 +258,16 @@ namespace pika::when_all_vector_detail {
                 {
 #if defined(PIKA_HAVE_STDEXEC)
                     if constexpr (pika::execution::experimental::sends_stopped<Sender>)
-#else
-                    if constexpr (pika::execution::experimental::sender_traits<Sender>::sends_done)
-#endif
                     {
                         pika::execution::experimental::set_stopped(std::move(receiver));
                     }
                     else { PIKA_UNREACHABLE; }
+#else
+                    // A predecessor has sent stopped. sender_traits<Sender>::sends_done says
+                    // nothing about that: the adaptors declare it false and forward set_stopped
+                    // all the same.
+                    pika::execution::experimental::set_stopped(std::move(receiver));
+#endif
                 }
             }
         }
